@@ -139,6 +139,30 @@ def replay(info, ce):
         except Exception as e:
             err = type(e).__name__
         history.append('apply ' + op + (' -> raised ' + err if err else ''))
+    clause = info.get('clause', '')
+    if 'not-shared-with-argument' in clause or 'not-written' in clause or 'values-is-numeric-array' in clause or 'npts-equals' in clause:
+        # ownership clauses: replay with an explicit caller array
+        o2 = cls(_record(), 0.01)
+        b = _record(200, 9)
+        b0 = b.copy()
+        shared = None
+        if op == 'reset_values':
+            o2.reset_values(b)
+            shared = bool(np.shares_memory(np.asarray(o2.values), b))
+            if hasattr(o2, 'rebase_displacement'):
+                o2.rebase_displacement()
+            else:
+                o2.values[0] += 1.0
+        elif op == 'add_series':
+            o2.add_series(b)
+            shared = bool(np.shares_memory(np.asarray(o2.values), b))
+        changed = not np.array_equal(b, b0)
+        bad_type = not isinstance(o2.values, np.ndarray) or o2.npts != len(o2.values)
+        hit = bool(shared) or changed or bad_type
+        return dict(status='confirmed' if hit else 'not-reproduced',
+                    observed={'shares_memory_with_argument': shared, 'argument_changed_by_later_in_place_operation': changed,
+                              'values_type': type(o2.values).__name__},
+                    detail='caller array %s after %s followed by an in-place correction' % ('CHANGED' if changed else 'unchanged', op))
     stale = []
     try:
         f = fresh_like(o)
